@@ -60,7 +60,7 @@ PROPS = {
     ),
     "C05": dict(
         modules=["JPV.Props.C05", "JPV.Props.C03"],
-        theorems=["JPV.Props.C05_sound", "JPV.Props.C05_invalid_rejected", "JPV.Props.C03", "JPV.Props.C05_partial", "JPV.Props.C05_arg_rule"],
+        theorems=["JPV.Props.C05_iff", "JPV.Props.C05_sound", "JPV.Props.C05_invalid_rejected", "JPV.Props.C03", "JPV.Props.C03_disputed", "JPV.Props.C05_partial", "JPV.Props.C05_arg_rule"],
         tables=[T + "builtin_sigs_model", T + "env_defaults_model", T + "token_map_model",
                 T + "function_argument_map_model", T + "exceptions_model"],
         explore=ct.explore_c05,
@@ -120,14 +120,14 @@ PROPS = {
     ),
     "C03": dict(
         modules=["JPV.Props.C03", "JPV.Props.C09", "JPV.Props.C13", "JPV.Props.C12"],
-        theorems=["JPV.Props.C03", "JPV.Props.C03_kwfree", "JPV.Props.C03_builtin", "JPV.Props.C03_structural", "JPV.Props.C12_filter_partial", "JPV.Props.C09", "JPV.Props.C13_lex", "JPV.Props.C13_token_shapes"],
+        theorems=["JPV.Props.C03", "JPV.Props.C03_disputed", "JPV.Props.C05_iff", "JPV.Props.C03_kwfree", "JPV.Props.C03_builtin", "JPV.Props.C03_structural", "JPV.Props.C12_filter_partial", "JPV.Props.C09", "JPV.Props.C13_lex", "JPV.Props.C13_token_shapes"],
         tables=[T + "regexes_model", T + "escapes_model", T + "token_map_model", T + "function_argument_map_model",
                 T + "precedences_model", T + "binary_operators_model", T + "builtin_sigs_model", T + "env_defaults_model"],
         explore=ct.explore_c03,
     ),
     "C04": dict(
-        modules=["JPV.Props.C04", "JPV.Props.C09", "JPV.Props.C05", "JPV.Props.C13"],
-        theorems=["JPV.Props.C04", "JPV.Props.C04_reject", "JPV.Props.C04_structural", "JPV.Props.C04_structural_reject", "JPV.Props.C03_C04_structural_iff",
+        modules=["JPV.Props.C04", "JPV.Props.C03", "JPV.Props.C09", "JPV.Props.C05", "JPV.Props.C13"],
+        theorems=["JPV.Props.C04", "JPV.Props.C04_reject", "JPV.Props.C05_iff", "JPV.Props.C04_structural", "JPV.Props.C04_structural_reject", "JPV.Props.C03_C04_structural_iff",
                   "JPV.Props.C13_compile", "JPV.Props.C09", "JPV.Props.C05_partial", "JPV.Props.C13_token_shapes", "JPV.Props.C13_lex"],
         tables=[T + "regexes_model", T + "escapes_model", T + "token_map_model", T + "function_argument_map_model",
                 T + "precedences_model", T + "binary_operators_model", T + "comparison_operators_model"],
